@@ -12,6 +12,7 @@ from tools.lib import core
 PROP = 'C07'
 FID = 'F-PY-PICKLEPATH'
 FID_STATE = 'F-PY-PICKLESTATE'
+FID_LOCALE = 'F-DSDL-LOCALE-DECODE'
 FRAGMENT = os.path.join(core.VERIF, 'known_findings.d', 'C07.json')
 
 MANIFEST = dict(
@@ -79,6 +80,7 @@ def gen_namespace(rng, size: int) -> dict:
                                      fields=[('prim', 'uint8')], resp=[]))
     types: typing.List[dict] = []
     names = set()
+    docs = rng.random() < 0.35          # non-ASCII documentation comments (locale finding): in a third of the namespaces
     for _ in range(size):
         ns = rng.choice(nss)
         short = rng.choice(SHORTS)
@@ -103,7 +105,7 @@ def gen_namespace(rng, size: int) -> dict:
                 else:
                     fs.append(('prim', rng.choice(PRIMS)))
             return fs
-        t = dict(ns=ns, short=short, major=major, minor=minor, kind=kind, fields=fields(2 if kind == 'union' else 0),
+        t = dict(ns=ns, short=short, major=major, minor=minor, kind=kind, doc=docs and rng.random() < 0.6, fields=fields(2 if kind == 'union' else 0),
                  resp=fields(0) if kind == 'service' else [])
         types.append(t)
     if not types:
@@ -129,6 +131,8 @@ def render_fields(fs: list, prefix: str) -> typing.List[str]:
 
 def render_type(t: dict) -> str:
     lines = []
+    if t.get('doc'):
+        lines.append('# Gr\u00f6\u00dfe \u00b5 \u2014 \u2603 ' + t['short'])       # non-ASCII documentation comment (ends up in the output)
     if t['kind'] == 'union':
         lines.append('@union')
     lines += render_fields(t['fields'], 'f')
@@ -153,6 +157,12 @@ def case_files(ns: dict) -> typing.Tuple[dict, dict]:
 
 
 # ---- runs ---------------------------------------------------------------------------------------------------------------
+ENV_EXTRA = {'LANG': 'C', 'LC_ALL': 'C', 'LC_CTYPE': 'C', 'LANGUAGE': 'de:fr', 'TZ': 'Pacific/Kiritimati', 'HOME': '/nonexistent-home',
+             'USER': 'somebody', 'LOGNAME': 'somebody', 'COLUMNS': '37', 'LINES': '9', 'PYTHONIOENCODING': 'latin-1', 'PYTHONUTF8': '0',
+             'PYTHONCOERCECLOCALE': '0', 'TMPDIR': '$CDIR/tmpx', 'TERM': 'dumb', 'NO_COLOR': '1', 'SOURCE_DATE_EPOCH': '86400',
+             'NUNAVUT_BANNER': 'hello', 'DSDL_INCLUDE_PATH': None}
+
+
 def runs_audit_off() -> typing.List[dict]:
     return [
         dict(name='R0', hashseed='0', loc='A', cwd='loc', paths='rel', wave=0, want_includes=True),
@@ -165,6 +175,12 @@ def runs_audit_off() -> typing.List[dict]:
         dict(name='Rall', hashseed='random', loc='B', cwd='other', paths='abs', wave=1, fake_offset=FIVE_YEARS),
         # working directory inside the project: every relative path on the command line is spelled differently
         dict(name='Rsub', hashseed='0', loc='A', cwd='sub:m', paths='rel', wave=1),
+        # environment variables and locale: everything a process inherits besides PYTHONHASHSEED
+        dict(name='Renv', hashseed='0', loc='A', cwd='loc', paths='rel', wave=1, env_extra=ENV_EXTRA),
+        # outputs at another absolute location, inputs unmoved
+        dict(name='Rout', hashseed='0', loc='A', cwd='loc', paths='abs', wave=1, out='alt'),
+        # another file system (tmpfs: readdir order = reverse creation order) with the input tree created in reverse order
+        dict(name='Rfs', hashseed='0', loc='T', cwd='loc', paths='rel', wave=1, tree='rev'),
         # output directory used before by a run with another option set (pre_args filled in by mk_case)
         dict(name='Rreuse', hashseed='0', loc='A', cwd='loc', paths='rel', wave=1, pre_args=[]),
     ]
@@ -251,6 +267,17 @@ WITNESS_NATSORT_NS = dict(root='nat', lookup=[], types=[
     _t(['nat', 'x010'], 'A'), _t(['nat', 'unit7'], 'T07'), _t(['nat'], 'V1'), _t(['nat'], 'V01'),
     _t(['nat', 'Abc'], 'P'), _t(['nat', 'abc'], 'Q')])
 
+WITNESS_LOCALE_NS = dict(root='ns', lookup=[], types=[
+    dict(ns=['ns'], short='A', major=1, minor=0, kind='struct', doc=True, fields=[('prim', 'uint8')], resp=[])])
+
+
+def locale_trigger(case: dict, run: dict) -> bool:
+    """trigger of F-DSDL-LOCALE-DECODE: the run changes the locale's text encoding and some DSDL file has a non-ASCII byte"""
+    if not (run.get('env_extra') or {}).get('LC_ALL'):
+        return False
+    return any(ord(ch) > 127 for text in list(case['dsdl'].values()) + list(case.get('lookup', {}).values()) for ch in text)
+
+
 WITNESS_NS = dict(root='ns', lookup=[], types=[
     dict(ns=['ns'], short='A', major=1, minor=0, kind='struct', fields=[('prim', 'uint8')], resp=[])])
 
@@ -313,7 +340,7 @@ def oracle_diffs(case: dict, res: dict) -> typing.List[dict]:
     for r in case['runs'][1:]:
         ri = runs.get(r['name'])
         if ri is None or ri['rc'] != 0:
-            out.append(dict(run=r['name'], what='run failed', log=(ri or {}).get('log', '')))
+            out.append(dict(run=r['name'], what='run failed', log=(ri or {}).get('log', ''), locale_trigger=locale_trigger(case, r)))
             continue
         if r.get('pre_args') is not None:
             ri = dict(ri, files={f: h for f, h in ri['files'].items() if f in r0['files']})   # leftovers of the earlier run: C12's business
@@ -322,7 +349,7 @@ def oracle_diffs(case: dict, res: dict) -> typing.List[dict]:
                             only_run=sorted(set(ri['files']) - set(r0['files']))))
         for rel in sorted(set(ri['files']) & set(r0['files'])):
             if ri['files'][rel] != r0['files'][rel]:
-                out.append(dict(run=r['name'], what='bytes differ', file=rel, loc_differs=r['loc'] != 'A',
+                out.append(dict(run=r['name'], what='bytes differ', file=rel, loc_differs=r['loc'] != 'A', locale_trigger=locale_trigger(case, r),
                                 state_trigger=state_trigger(case, rel, r) if 'ns' in case else False))
     return out
 
@@ -387,7 +414,8 @@ def coq_case(i: int, case: dict, res: dict, pickle_live: bool, state_live: bool 
         which = {'0': 0, '1': 1}.get(r['hashseed'], 2)
         abs_ = ['', 'scratch', r['loc'], 'in']
         cwd = abs_[:-1] if r['cwd'] == 'loc' else (abs_[:-1] + [r['cwd'][4:]] if r['cwd'].startswith('sub:') else ['', 'scratch', 'other'])
-        return '(mk_env %d %s %s %d)' % (clock, cpath(cwd), cpath(abs_), which)
+        out_ = (abs_[:-1] + ['out']) if r.get('out') != 'alt' else ['', 'scratch', 'outputs_moved', 'out']
+        return '(mk_env_out %d %s %s %s %d)' % (clock, cpath(cwd), cpath(abs_), cpath(out_), which)
     checks, labels = [], []
     e0 = env_of(0, case['runs'][0])
     checks.append('paths_agree gen_src_facts %s c_%d I_%d %s %s' % (tbl, i, i, e0, cpath(sorted(r0['files']))))
@@ -479,11 +507,13 @@ def load_fragment(chk: core.Check) -> None:
 
 def build_cases(chk: core.Check) -> typing.List[dict]:
     rng = chk.rng
-    n_ns = 5 if chk.tier == 'quick' else 30
+    n_ns = 4 if chk.tier == 'quick' else 30
     cases = [mk_case('w-py', 'py', [], WITNESS_NS, False)]
     cases[0]['runs'] = [r for r in cases[0]['runs'] if r['name'] in ('R0', 'Rloc', 'Rh1')]
     cases.append(mk_case('w-state', 'py', [], WITNESS_STATE_NS, False))
     cases[1]['runs'] = [r for r in cases[1]['runs'] if r['name'] in ('R0', 'Rh1', 'Rh2', 'Rclk')]
+    cases.append(mk_case('w-locale', 'c', [], WITNESS_LOCALE_NS, False))
+    cases[-1]['runs'] = [r for r in cases[-1]['runs'] if r['name'] in ('R0', 'Renv', 'Rh1')]
     # corpus: F-HTML-NATSORT-TIE (fixed): sibling namespaces and types whose names tie under the natural-sort key
     cases.append(mk_case('w-natsort', 'html', [], WITNESS_NATSORT_NS, False))
     cases[-1]['runs'] = [dict(name='R0', hashseed='0', loc='A', cwd='loc', paths='rel', wave=0)] + [
@@ -581,10 +611,21 @@ def main(chk: core.Check, replay: typing.Optional[str] = None) -> int:
         chk.report_known(FID_STATE, 'acme/inner/Gamma_2_2.py differs between PYTHONHASHSEED=0 and 1 at the same location and clock')
     state_quirk = state_live and chk.is_known(FID_STATE)
 
+    locale_live = False
+    wl = next((c for c in cases if c['id'] == 'w-locale'), None)
+    if wl is not None:
+        lr = results[wl['id']].get('runs', {})
+        if lr.get('R0', {}).get('rc') == 0 and 'Renv' in lr:
+            locale_live = lr['Renv']['rc'] != 0 and 'UnicodeDecodeError' in lr['Renv'].get('log', '') or \
+                (lr['Renv']['rc'] == 0 and lr['Renv']['files'] != lr['R0']['files'])
+    if locale_live and chk.is_known(FID_LOCALE):
+        chk.report_known(FID_LOCALE, 'ns/A.1.0.dsdl with a non-ASCII comment: LC_ALL=C PYTHONUTF8=0 run fails in pydsdl')
+    locale_quirk = locale_live and chk.is_known(FID_LOCALE)
+
     stats = {'cases': len(cases), 'runs': 0, 'files_hashed': 0, 'pairs_compared': 0, 'file_pairs_compared': 0,
              'known_finding_instances': 0, 'audit_on_cases': 0, 'audit_on_file_pairs_differing': 0, 'audit_on_file_pairs_equal': 0,
              'model_checks': 0, 'by_lang': {}, 'with_lookup_deps': 0, 'with_nested_ns': 0, 'with_service': 0, 'with_union': 0, 'with_user_templates': 0, 'with_two_config_files': 0, 'reused_output_dir_pairs': 0, 'with_natsort_ties': 0,
-             'types_total': 0, 'invalid_inputs': 0, 'known_state_instances': 0, 'pairs_with_different_write_order': 0}
+             'types_total': 0, 'invalid_inputs': 0, 'known_state_instances': 0, 'known_locale_instances': 0, 'pairs_with_different_write_order': 0}
     violations: typing.List[typing.Tuple[dict, dict]] = []
     distinct = set()
     usable: typing.List[dict] = []
@@ -605,6 +646,12 @@ def main(chk: core.Check, replay: typing.Optional[str] = None) -> int:
         runs = r.get('runs', {})
         stats['runs'] += len(runs)
         stats['files_hashed'] += sum(len(x.get('files', {})) for x in runs.values())
+        if locale_quirk and runs.get('R0', {}).get('rc') == 0:
+            # the runs the known finding makes fail are taken out of the comparison (model and oracle), nothing else
+            dropped = [x for x in c['runs'][1:] if locale_trigger(c, x) and runs.get(x['name'], {}).get('rc', 0) != 0]
+            if dropped:
+                stats['known_locale_instances'] += len(dropped)
+                c['runs'] = [x for x in c['runs'] if x not in dropped]
         ok_runs = all(runs.get(x['name'], {}).get('rc') == 0 for x in c['runs'])
         if runs.get('R0', {}).get('rc', 0) != 0:
             stats['invalid_inputs'] += 1
@@ -665,7 +712,8 @@ def main(chk: core.Check, replay: typing.Optional[str] = None) -> int:
         'traces_validated_against_impl': stats['model_checks'],
         'distribution': stats,
         'known_finding_probe': {FID: {'reproduces': pickle_live, 'listed': chk.is_known(FID)},
-                                FID_STATE: {'reproduces': state_live, 'listed': chk.is_known(FID_STATE)}},
+                                FID_STATE: {'reproduces': state_live, 'listed': chk.is_known(FID_STATE)},
+                                FID_LOCALE: {'reproduces': locale_live, 'listed': chk.is_known(FID_LOCALE)}},
     })
 
     if violations:
